@@ -38,13 +38,15 @@ def focus_elements(tier):
         return ('e', name, tuple((k, v) for k, v in attrs if v is not None), tuple(kids))
     # range group: type x min x max x value
     # every (min, value) and (max, value) pair (each attribute is parsed on its own, comparisons are pairwise), plus small triples
-    valid = {'date': ('2020-02-29', '2021-01-01'), 'month': ('2020-02', '2021-12'), 'week': ('2019-W53', '0999-W01'),
+    valid = {'date': ('2020-02-29', '2021-01-01'), 'month': ('2020-02', '2021-12'), 'week': ('2000-W53', '10000-W01'),
              'time': ('10:30', '23:59'), 'datetime-local': ('2020-01-01T10:00', '10000-01-01T00:00'), 'number': ('5', '-.5'),
              'range': ('5', '1e3'), 'DaTe': ('2020-02-29', '0001-01-01')}
     for t in TYPES:
         if tier == 'quick':
             v1, v2 = valid.get(t, ('5', '2020-02-29'))
             pv = (None, '', v1, v2, 'x', '99999' + ('-W01' if t == 'week' else '-01' if t == 'month' else '-01-01'))
+            if t == 'week':
+                pv += ('0400-W10', '0999-W52', '2019-W53')
             tv = (v1, v2, 'x')
         else:
             pv, tv = vals, vals[1:7]
@@ -159,8 +161,8 @@ def wrap(context, batch):
 
 def shards(tier, seed):
     n = 48 if tier == 'quick' else 160
-    return [('main', tier, i, n) for i in range(n)] + [('odd', tier, 0, 1), ('nontag', tier, 0, 1), ('huge', tier, 0, 1),
-                                                        ('degenerate', tier, 0, 1)]
+    return [('odd-all', tier, k, 28) for k in range(28)] + [('main', tier, i, n) for i in range(n)] + \
+        [('odd', tier, 0, 1), ('nontag', tier, 0, 1), ('huge', tier, 0, 1), ('degenerate', tier, 0, 1)]
 
 
 def call_all(sv, c, text, target, els, res, full=True):
@@ -294,6 +296,42 @@ def run_main(sv, tier, i, n, res):
             res.nontrivial += 1 if not nbad else 0
         if ji % 11 == 0:
             res.sample({'context': context, 'elements': [T.to_markup((s,))[:80] for s in batch[:2]], 'selectors': texts[:3]})
+
+
+ODD2 = ((1, None), ('a', ('b',)), (b'\xff', 2.5), None, 0, b'x', ('a', 'b'))
+
+
+def run_odd_all_selectors(sv, tier, res, only=None):
+    """Attributes that only attribute/class/id selectors read (class, id, data-x, t) carry odd values on a form, its controls and their
+    neighbours, while EVERY selector (all pseudo-classes) is evaluated through all entry points."""
+    texts, base = selector_texts(sv, tier)
+    if tier == 'quick':
+        texts = base          # quick: every pseudo-class / operator alone; thorough: also under :not(), after '>' and before '+'
+    k = -1
+    for v in ODD2:
+        for attr in ('class', 'data-x', 't', 'id'):
+            k += 1
+            if only is not None and k != only:
+                continue
+            a = ((attr, v),)
+            form = ('e', 'form', a, (('e', 'input', (('type', 'submit'),) + a, ()), ('e', 'input', (('type', 'radio'), ('name', 'n')) + a, ()),
+                                     ('e', 'input', (('type', 'radio'), ('name', 'n'), ('checked', '')), ()), ('e', 'fieldset', (('disabled', ''),) + a, (('e', 'legend', a, (('e', 'input', (), ()),)),)),
+                                     ('e', 'p', (('lang', 'en'), ('dir', 'auto')) + a, (('t', 'x'),)), ('e', 'input', (('type', 'number'), ('min', '1'), ('value', '3')) + a, ())))
+            for xml in (False, True):
+                soup = T.build_api((('e', 'html', (), (('e', 'body', a, (form, form)),)),), xml)
+                els = T.elements(soup)
+                for text in texts:
+                    c = sv.compile(text)
+                    for target in (soup, els[2], els[3]):
+                        bad = call_all(sv, c, text, target, els, res)
+                        if bad:
+                            entry, why = bad[0]
+                            res.fail({'layer': 'odd-all', 'attr': attr, 'value': _enc(('e', 'x', ((attr, v),), ()))[2][0][1], 'xml': xml, 'selector': text},
+                                     {'kind': 'raise', 'exc': why.split(':')[0], 'values': value_kind(('e', 'x', ((attr, v),), ())) or 'odd'},
+                                     f'{entry}({text!r}) on a form whose {attr} attribute is {v!r}: {why}')
+                            break
+                    res.outcome('odd-returned')
+            res.nontrivial += 1
 
 
 def run_odd(sv, res):
@@ -432,7 +470,9 @@ def run_shard(desc):
     sv = common.bind()
     warnings.simplefilter('ignore')
     res = shard.Result()
-    if desc[0] == 'degenerate':
+    if desc[0] == 'odd-all':
+        run_odd_all_selectors(sv, desc[1], res, desc[2])
+    elif desc[0] == 'degenerate':
         run_degenerate(sv, desc[1], res)
     elif desc[0] == 'huge':
         run_huge(sv, desc[1], res)
@@ -461,6 +501,13 @@ def replay(case):
             return {'kind': 'compile', 'exc': type(e).__name__}, repr(e)
     text = case['selector']
     c = sv.compile(text)
+    if case['layer'] == 'odd-all':
+        r = shard.Result()
+        run_odd_all_selectors(sv, 'quick', r)
+        for f_ in r.failures:
+            if f_['case']['selector'] == case['selector'] and f_['case']['attr'] == case['attr']:
+                return f_['sig'], f_['detail']
+        return (r.failures[0]['sig'], r.failures[0]['detail']) if r.failures else None
     if case['layer'] == 'degenerate':
         soup = degenerate_doc(*DEGENERATE[case['doc']])
         bad = call_all(sv, c, text, soup, [], shard.Result())
